@@ -28,11 +28,15 @@ def expression_set(tier):
     # comparison values whose Python hashes collide although the values differ (hash(-1) == hash(-2) in CPython)
     for op in ("==", "<", ">="):
         twins += [("cmp", "fields", ("x",), op, -1), ("cmp", "fields", ("x",), op, -2), ("cmp", "fields", ("x",), op, -2.0)]
+    # the same numbers handed to a test function as a tuple, as a list (unequal arguments: unequal queries, or at least
+    # queries that behave alike) - and the function tells a range from an enumeration by the argument's type
+    twins += [("test", "fields", ("x",), "within", (("TUPLE", 0, 2),)), ("test", "fields", ("x",), "within", (("LIST", 0, 2),)),
+              ("test", "fields", ("x",), "within", (("TUPLE", -1, 2),)), ("test", "fields", ("x",), "within", (("LIST", -1, 2),))]
     A = A + [t for t in twins if t not in A]
     E = list(A) + [("not", a) for a in A]
     sub = quick_atoms(A)[: (18 if tier == "quick" else 34)]
     lits = sub if tier == "quick" else sub + [("not", a) for a in sub[:12]]
-    lits = lits + naive[:3] + twins[:7] + twins[-9:-6]
+    lits = lits + naive[:3] + twins[:7] + twins[-13:-10] + twins[-4:-2]
     for a in lits:
         for b in lits:
             E.append(("and", a, b))
